@@ -71,6 +71,10 @@ func genC14(t *rapid.T) c14Case {
 			case 1, 2:
 				p := genEthPlan(t, w, cfg, false)
 				p.To, p.Data, p.Value = loggers[rapid.IntRange(0, len(loggers)-1).Draw(t, "logger")], "", "0"
+				if rapid.IntRange(0, 2).Draw(t, "noext") == 0 {
+					// the other shape the Ethereum lane accepts: the wrapper without the (optional) extension option
+					p.Mut = "noext"
+				}
 				bp.Txs = append(bp.Txs, p)
 			default:
 				bp.Txs = append(bp.Txs, genEthPlan(t, w, cfg, true))
